@@ -828,7 +828,7 @@ def data_cases(tier, seed):
                 fs = forms_for(chs)
                 fx = forms_x(chs)
                 if tier == 'thorough':
-                    use = fs + (['list1d'] if chs == 2 else []) + [fx[(L + si + j) % len(fx)] for j in (0, 1)]
+                    use = fs + (['list1d'] if chs == 2 else []) + [fx[(L + si) % len(fx)]]
                 elif boundary:
                     use = fs                               # block boundaries: full product, both forms
                     if L <= 2100 or si in (0, 4):
@@ -1279,8 +1279,9 @@ def sync_case(case):
     if i != d:
         viol.append((f'SYNC:index:{cls}', f'{sig} returned index {i}, expected {d}'))
     s = np.asarray(out.signal)
-    ref = clean if form == 'esn' else rx
-    if s.size == 0 or s.size > ref.size - i or not np.array_equal(s, ref[i:i + s.size]):
+    # an electrical_signal with a noise component: "a signal starting at that sample" is its signal part or signal + noise
+    refs = [clean, clean + noise] if form == 'esn' else [rx]
+    if s.size == 0 or s.size > rx.size - i or not any(np.array_equal(s, ref[i:i + s.size]) for ref in refs):
         viol.append((f'SYNC:signal-not-rx-from-index:{cls}', f'{sig}: returned signal ({s.size} samples) is not rx[{i}:{i}+{s.size}]'))
     elif i == d and s.size < l:
         pass    # length of the synchronised record is not part of the statement
@@ -1351,6 +1352,8 @@ def sync_cases(tier, seed):
             for form in list(RX_DT) + list(SLOT_DT) + ['esn', 'esnd', 'essps', 'bsnd', 'spsnp', 'kw'] + list(TOLERATED_FORMS):
                 if sps in (1, 2, 3) or th:
                     x.append((seed, sps, d, form, -1 if form == 'bool' else 0, 7, base3, None))
+            if sps in (1, 2, 3) or th:
+                x.append((seed, sps, d, 'esn', -1, 7, base3, None))        # noise component present but all-zero
             # record lengths: exactly two pattern lengths, one sample less / more, 5 lengths, just the first complete pattern
             for nspec in (('rep', 2), '2l-1', '2l+1', ('rep', 5), 'l+d', 'l+d+1') if (sps in (1, 2, 3) or th) else ():
                 if nspec == 'l+d' and d == 0:
@@ -1442,17 +1445,29 @@ def run(ctx):
     for c in REGRESS_DATA:
         ctx.run_case('regress', data_case, c)
 
-    sc = single_cases(tier)
+    def both(gen, *a):
+        """the thorough tier is a superset of the quick tier: quick cases first, then what the thorough generator adds"""
+        if tier != 'thorough':
+            return gen('quick', *a)
+        out, seen = [], set()
+        for c in gen('quick', *a) + gen('thorough', *a):
+            k = repr(c)
+            if k not in seen:
+                seen.add(k)
+                out.append(c)
+        return out
+
+    sc = both(single_cases)
     ctx.pmap('single', single_case, sc, horizon=30)
-    ac = agg_cases(tier)
+    ac = both(agg_cases)
     ctx.pmap('agg', agg_case, ac, horizon=30)
-    dc = data_cases(tier, seed)
+    dc = both(data_cases, seed)
     ctx.pmap('data', data_case, dc, horizon=60)
-    oc = overlap_cases(tier, seed)
+    oc = both(overlap_cases, seed)
     ctx.pmap('overlap', overlap_case, oc, horizon=60)
-    gc = getsweep_cases(tier, seed)
+    gc = both(getsweep_cases, seed)
     ctx.pmap('getsweep', getsweep_case, gc, horizon=60)
-    cc = chain_cases(tier, seed)
+    cc = both(chain_cases, seed)
     ctx.pmap('chain', chain_case, cc, horizon=60)
     t0 = time.time()
     states, transitions, closed, depth = run_bfs(ctx)
@@ -1460,7 +1475,8 @@ def run(ctx):
     print(f'[C20] part bfs: {time.time() - t0:.1f} s', flush=True)
     if not closed:
         ctx.rule(f'bfs is depth-bounded at {depth} (the state space is a product of register values; closure is not the goal)')
-    yc, ys = sync_cases(tier, seed)
+    yc = both(lambda t, s_: sync_cases(t, s_)[0], seed)
+    ys = both(lambda t, s_: sync_cases(t, s_)[1], seed)
     ctx.pmap('sync', sync_case, yc, horizon=30)
     ctx.pmap('sync.short', sync_short_case, ys, horizon=30)
 
